@@ -12,8 +12,9 @@ StrVals == {[k |-> "str", toks |-> <<a>>] : a \in Tok} \cup {[k |-> "str", toks 
 Values == StrVals \cup {[k |-> "int"]}
 EvData == {[x \in {"_", "k1"} |-> IF x = "_" THEN [k |-> "null"] ELSE v] : v \in Values}
           \cup {[x \in {"_", "k1", "k2"} |-> IF x = "_" THEN [k |-> "null"] ELSE IF x = "k1" THEN v ELSE w] : v \in {[k |-> "str", toks |-> <<a>>] : a \in Tok}, w \in {[k |-> "str", toks |-> <<a>>] : a \in Tok} \cup {[k |-> "int"]}}
-Rx == {[t |-> a.t, c |-> a.c, t2 |-> "", opt |-> FALSE] : a \in Tok} \cup {[t |-> "", c |-> "l", t2 |-> "", opt |-> FALSE]} \cup {[t |-> "t1", c |-> "l", t2 |-> "t2", opt |-> FALSE]}
-      \cup {[t |-> "t1", c |-> "l", t2 |-> "", opt |-> TRUE]}
+Rx == {[t |-> a.t, c |-> a.c, t2 |-> "", opt |-> FALSE, sp |-> ""] : a \in Tok} \cup {[t |-> "", c |-> "l", t2 |-> "", opt |-> FALSE, sp |-> ""]} \cup {[t |-> "t1", c |-> "l", t2 |-> "t2", opt |-> FALSE, sp |-> ""]}
+      \cup {[t |-> "t1", c |-> "l", t2 |-> "", opt |-> TRUE, sp |-> ""]}
+      \cup {[t |-> "", c |-> "l", t2 |-> "", opt |-> FALSE, sp |-> "only"], [t |-> "t1", c |-> "l", t2 |-> "", opt |-> FALSE, sp |-> "trail"]}
 Rules == [rx : Rx, ic : BOOLEAN, hs : BOOLEAN, sk : {<<>>, <<"k2">>, <<"k9", "k1">>}]
 Classes == [cls : Cats, rule : Rules]
 RECURSIVE SeqsUpTo(_, _)
@@ -25,7 +26,9 @@ DValues(rule, e) == IF rule.hs /\ rule.sk # <<>>
                     ELSE LET ks == Keys(e) IN IF ks = {} THEN <<>> ELSE
                          LET sq == CHOOSE sq \in [1..Cardinality(ks) -> ks] : \A i, j \in 1..Cardinality(ks) : i # j => sq[i] # sq[j]
                          IN [i \in 1..Cardinality(ks) |-> e.data[sq[i]]]
-DMatch(rule, e) == IF rule.rx.t = "" THEN FALSE
+\* `if regex_str` in Rule.__init__: the regex text is tested as it was given - a regex made of blanks is not empty
+RegexGiven(rx) == rx.t # "" \/ rx.sp = "only"
+DMatch(rule, e) == IF ~RegexGiven(rule.rx) THEN FALSE
                    ELSE \E i \in 1..Len(DValues(rule, e)) : LET v == DValues(rule, e)[i] IN IsStr(v) /\ Contains(v, rule.rx, rule.ic)
 \* transcription of reduce(_pick_deepest_cat, matching, ["Uncategorized"])
 RECURSIVE Fold(_, _)
